@@ -91,16 +91,16 @@ def idGet (v : J) : Iri :=
 def funcElem (F : TFacts) (v : J) (p : String) : Option Elem :=
   if has F v p then (v.get? p).map (elemOf F) else none
 
-/-- `GetId(t)`: the `id` if the property is set (possibly nil!), else `href` on Link types, else an error -/
+/-- `GetId(t)`: the `id` if the property is set and holds an IRI, else `href` on Link types, else an error -/
 def getId (F : TFacts) (v : J) : Except Unit Iri :=
   match idState v with
   | .iri u => .ok u
-  | .unusable => .ok nilIri
+  | .unusable => .error ()
   | .absent =>
     if has F v "href" then
       match v.get? "href" with
-      | some (.str s) => if Iri.hasScheme s then .ok s else .ok nilIri
-      | some _ => .ok nilIri
+      | some (.str s) => if Iri.hasScheme s then .ok s else .error ()
+      | some _ => .error ()
       | none => .error ()
     else .error ()
 
